@@ -160,6 +160,11 @@ func trustedResourceURLFormat(format string, args map[string]string) (TrustedRes
 		// ".." dot-segment by adjacent markers or by dots in the format string.
 		err = fmt.Errorf(`TrustedResourceURL %q must not contain ".."`, ret)
 	}
+	if err == nil && !strings.HasPrefix(format, "//") && (strings.HasPrefix(ret, "//") || strings.HasPrefix(ret, `/\`)) {
+		// An empty argument directly after the leading '/' must not turn a path-absolute
+		// format string into a network-path reference ("//<origin>/...").
+		err = fmt.Errorf("arguments change the origin of TrustedResourceURL format string %q", format)
+	}
 	return TrustedResourceURL{ret}, err
 }
 
